@@ -12,3 +12,18 @@ where
 /// `zeroize::optimization_barrier` is an empty `asm!` statement (a compiler barrier, no semantics); Kani does
 /// not support inline assembly. `blst_scalar` is zeroized on drop, so every harness that builds one needs this.
 pub fn noop_barrier<T: ?Sized>(_val: &T) {}
+
+/// Square root as an oracle: replaces `ff::helpers::sqrt_tonelli_shanks` (used by `Fq::sqrt`). Answers
+/// nondeterministically (is_some, root) and records the radicand it was asked about.
+/// Rust-level stub: Kani only. The native replay cannot apply it, so harnesses using it are registered
+/// with `replay=False` (a FAILED verdict stays INCONCLUSIVE).
+pub static mut SQRT: crate::ffi::Log<4, 1, 2> = crate::ffi::Log::new();
+pub fn sqrt_oracle<F: ff::PrimeField, S: AsRef<[u64]>>(f: &F, _tm1d2: S) -> subtle::CtOption<F> {
+    assert!(core::mem::size_of::<F>() == 32);
+    let arg: [u64; 4] = unsafe { core::mem::transmute_copy(f) };
+    let ans: bool = crate::vk::any();
+    let out: [u64; 4] = crate::vk::any();
+    unsafe { SQRT.rec([arg], out, ans) };
+    let root: F = unsafe { core::mem::transmute_copy(&out) };
+    subtle::CtOption::new(root, subtle::Choice::from(ans as u8))
+}
